@@ -40,6 +40,9 @@ def run(ctx):
     r319(ctx, core)
     r320(ctx)
     r322(ctx, core)
+    from . import findings2 as _f2
+    _f2.fixed_width_bytes(ctx, 'R3.23')
+    _f2.delta_capacity(ctx, 'R3.24')
     from . import c17 as _c17
     _c17.r176(ctx, 'R3.21')
     from . import c01 as _c01b, callsigs as _csb
